@@ -59,6 +59,9 @@ func (v aiVal) String() string {
 
 type aiEnv map[ssa.Value]aiVal
 
+// aiInt: the integer symbol named s ("-1", "other"); two symbols are equal iff their names are.
+func aiInt(s string) aiVal { return aiVal{k: aiStr, s: "#" + s} }
+
 type aiSpec struct {
 	fn     *ssa.Function
 	header *ssa.BasicBlock
@@ -119,6 +122,11 @@ func (m *aiMachine) eval(env aiEnv, v ssa.Value) aiVal {
 		}
 		if s, ok := constStringVal(k); ok {
 			return aiVal{k: aiStr, s: s}
+		}
+		// an integer constant is a symbol of the finite domain too ("#-1"); a classifier names the other integers it
+		// distinguishes with aiInt
+		if n, ok := constInt(k); ok {
+			return aiInt(fmt.Sprint(n))
 		}
 		return aiVal{}
 	}
